@@ -267,6 +267,11 @@ class Gen:
         a = r.choice(attrs)
         if scope["loopdepth"] >= 2 and r.random() < 0.3 and not force_simple:
             self.expr(ind, "loop.parent.index", "cur(LS).parent.index")
+        elif r.random() < 0.15 and not force_simple:
+            # the outermost loop has no parent; an inner one has (also after an inner loop ended by break / exception)
+            self.expr(ind, "loop.parent is None", "cur(LS).parent is None")
+            if scope["loopdepth"] >= 2:
+                self.expr(ind, "loop.parent.parent is None", "cur(LS).parent.parent is None")
         else:
             self.expr(ind, "loop.%s" % a, "cur(LS).%s" % a)
         self.p(ind, "marks.add('loopattr')")
